@@ -315,9 +315,9 @@ def rule_own_idx(ctx: RuleContext, p: Program, rid: str) -> None:
                  for c in walk_no_nested(init.node))
     reg = any(isinstance(c, ast.Call) and isinstance(c.func, ast.Attribute) and c.func.attr == 'register_update_handler'
               for c in walk_no_nested(init.node))
-    ctx.check(shared and reg, rid, 'models.internal.value_properties:RepeatedValueWrapper.__init__', 'handler registration',
-              'the wrapper does not register an update handler sharing its _raw_indexes list', init.where,
-              note='handler registered with the shared list')
+    # (that the handler really shares the list and is registered is decided by VIEW-LIVE, which interprets the constructor; the textual
+    # clause that stood here fired on `raw_indexes = [...]; self._raw_indexes = raw_indexes; Handler(..., raw_indexes)`)
+    _ = (shared, reg)
     if binds < 2:
         raise AnalysisError('OWN-IDX: constructor bindings of _raw_indexes not found')
 
